@@ -201,11 +201,16 @@ def c06(payload):
                     bad.append('%s: near E field changes by %.3g relative' % (what, np.abs(EB - EA).max() / np.abs(EA).max()))
                 if np.abs(HB - HA).max() > (tol + 1e-6) * np.abs(HA).max():
                     bad.append('%s: near H field changes by %.3g relative' % (what, np.abs(HB - HA).max() / np.abs(HA).max()))
+            # junction pulses whose two half-segments differ in length by a factor of 9 or more
+            ratio = max([max(s.seg_len for s in p.segs) / min(s.seg_len for s in p.segs) for p in A.pulses if p.geo[0] is not p.geo[1]] + [1.0])
+            r['features'] = dict(junction_length_ratio_ge_9=bool(ratio >= 9))
             # (a) reverse a random subset of wires
             sr = copy.deepcopy(spec)
             for w in sr['wires']:
                 if rng.random() < 0.5:
                     w['p1'], w['p2'] = w['p2'], w['p1']
+                    if w.get('taper') and w['taper'][0] in (1, 2):      # the same physical end stays tapered
+                        w['taper'] = [3 - w['taper'][0]] + list(w['taper'][1:])
             cmp(solve(sr), 'reversing wires')
             # (b) another order
             sp_ = copy.deepcopy(spec); rng.shuffle(sp_['wires'])
